@@ -6,26 +6,26 @@
 //! process instead of taking the machine down; the driver attributes the abort through the
 //! worker's progress file.
 use std::alloc::{GlobalAlloc, Layout, System};
-use std::sync::atomic::{AtomicBool, AtomicU64, Ordering};
+// usize atomics: 64-bit atomics do not exist on every target the harness runs on under Miri (32-bit MIPS)
+use std::sync::atomic::{AtomicBool, AtomicUsize, Ordering};
 
 pub struct CountingAlloc;
 
 static ARMED: AtomicBool = AtomicBool::new(false);
-static CALLS: AtomicU64 = AtomicU64::new(0);
-static LARGEST: AtomicU64 = AtomicU64::new(0);
-static BOUND: AtomicU64 = AtomicU64::new(u64::MAX);
-static OVER_BOUND: AtomicU64 = AtomicU64::new(0);
-static LARGEST_OVER: AtomicU64 = AtomicU64::new(0);
-static REFUSED: AtomicU64 = AtomicU64::new(0);
+static CALLS: AtomicUsize = AtomicUsize::new(0);
+static LARGEST: AtomicUsize = AtomicUsize::new(0);
+static BOUND: AtomicUsize = AtomicUsize::new(usize::MAX);
+static OVER_BOUND: AtomicUsize = AtomicUsize::new(0);
+static LARGEST_OVER: AtomicUsize = AtomicUsize::new(0);
+static REFUSED: AtomicUsize = AtomicUsize::new(0);
 /// counts all calls, armed or not (for the canary and for sanity)
-static TOTAL: AtomicU64 = AtomicU64::new(0);
+static TOTAL: AtomicUsize = AtomicUsize::new(0);
 
 pub const HARD_CAP: u64 = 256 << 20;
 
 #[inline]
 fn note(size: usize) -> bool {
     TOTAL.fetch_add(1, Ordering::Relaxed);
-    let size = size as u64;
     if ARMED.load(Ordering::Relaxed) {
         CALLS.fetch_add(1, Ordering::Relaxed);
         LARGEST.fetch_max(size, Ordering::Relaxed);
@@ -34,7 +34,7 @@ fn note(size: usize) -> bool {
             LARGEST_OVER.fetch_max(size, Ordering::Relaxed);
         }
     }
-    if size > HARD_CAP {
+    if size as u64 > HARD_CAP {
         REFUSED.fetch_add(1, Ordering::Relaxed);
         return false;
     }
@@ -79,23 +79,23 @@ pub fn arm(bound: u64) {
     LARGEST.store(0, Ordering::Relaxed);
     OVER_BOUND.store(0, Ordering::Relaxed);
     LARGEST_OVER.store(0, Ordering::Relaxed);
-    BOUND.store(bound, Ordering::Relaxed);
+    BOUND.store(usize::try_from(bound).unwrap_or(usize::MAX), Ordering::Relaxed);
     ARMED.store(true, Ordering::SeqCst);
 }
 
 pub fn disarm() -> AllocReport {
     ARMED.store(false, Ordering::SeqCst);
     AllocReport {
-        calls: CALLS.load(Ordering::Relaxed),
-        largest: LARGEST.load(Ordering::Relaxed),
-        over_bound: OVER_BOUND.load(Ordering::Relaxed),
-        largest_over: LARGEST_OVER.load(Ordering::Relaxed),
+        calls: CALLS.load(Ordering::Relaxed) as u64,
+        largest: LARGEST.load(Ordering::Relaxed) as u64,
+        over_bound: OVER_BOUND.load(Ordering::Relaxed) as u64,
+        largest_over: LARGEST_OVER.load(Ordering::Relaxed) as u64,
     }
 }
 
 pub fn total_calls() -> u64 {
-    TOTAL.load(Ordering::Relaxed)
+    TOTAL.load(Ordering::Relaxed) as u64
 }
 pub fn refused() -> u64 {
-    REFUSED.load(Ordering::Relaxed)
+    REFUSED.load(Ordering::Relaxed) as u64
 }
